@@ -34,7 +34,7 @@ impl PiXY {
 
         let num = (0..=n1)
             .flat_map(|m1| (0..=n2).map(move |m2| (m1, m2)))
-            .take(spectrum.elements() - 1)
+            .take(spectrum.elements().saturating_sub(1))
             .skip(1)
             .map(|(m1, m2)| {
                 let p1 = m1 * (n2 - m2);
@@ -149,12 +149,12 @@ impl Fst {
             .array
             .iter()
             .zip(sfs.iter_frequencies())
-            .take(sfs.elements() - 1)
+            .take(sfs.elements().saturating_sub(1))
             .skip(1);
 
         let shape = sfs.shape();
-        let n_i_sub = (shape[0] - 2) as f64;
-        let n_j_sub = (shape[1] - 2) as f64;
+        let n_i_sub = shape[0] as f64 - 2.0;
+        let n_j_sub = shape[1] as f64 - 2.0;
 
         let (num, denom) = polymorphic_iter
             .map(|(v, fs)| {
